@@ -19,7 +19,7 @@ Traffic actions:
 
 from __future__ import annotations
 
-from typing import Generator, Type, TypeVar, TYPE_CHECKING, cast
+from typing import Any, Generator, Type, TypeVar, TYPE_CHECKING, cast
 
 if TYPE_CHECKING:
     from exabgp.configuration.core.parser import Tokeniser
@@ -222,6 +222,15 @@ def _value(string: str) -> tuple[str, str]:
     return string[:ls], string[ls:]
 
 
+def _fitting(klass: Type[FlowConditionT], value: str) -> Any:
+    # the widest value the component can put on the wire (RFC 8955 section 4): a larger one can not be encoded
+    size = max(klass.VALUE_SIZES)
+    number = klass.converter(value)
+    if not 0 <= number < (1 << (8 * size)):
+        raise ValueError(f"'{value}' is too large for {klass.NAME}\n  Must fit in {size} byte(s)")
+    return number
+
+
 # parse [ content1 content2 content3 ]
 # parse =80 or >80 or <25 or &>10<20
 def _generic_condition(tokeniser: 'Tokeniser', klass: Type[FlowConditionT]) -> Generator[FlowConditionT, None, None]:
@@ -245,7 +254,7 @@ def _generic_condition(tokeniser: 'Tokeniser', klass: Type[FlowConditionT]) -> G
             operator, _ = _operator(data)
             value: str
             value, data = _value(_)
-            yield klass(AND | operator, klass.converter(value))
+            yield klass(AND | operator, _fitting(klass, value))
             if data:
                 if data[0] != '&':
                     raise ValueError('Unknown binary operator {}'.format(data[0]))
@@ -260,7 +269,7 @@ def _generic_condition(tokeniser: 'Tokeniser', klass: Type[FlowConditionT]) -> G
         while data:
             operator, _ = _operator(data)
             value, data = _value(_)
-            yield klass(operator | AND, klass.converter(value))
+            yield klass(operator | AND, _fitting(klass, value))
             if data:
                 if data[0] != '&':
                     raise ValueError('Unknown binary operator {}'.format(data[0]))
